@@ -135,6 +135,7 @@ def gen_steps(rng, specs, nclients, n, client_ops=True, late_start=False, snoope
 def generate(seed, tier, index):
     rng = random.Random(seed)
     thorough = tier == "thorough"
+    G.SPICY_NAMES[0] = rng.random() < 0.2  # property / element / group names with blanks, markup and non-ASCII characters
     ndev = rng.choice([1, 1, 2, 3])
     specs = [G.gen_device(rng, f"DEV{i}", kinds=KINDS, spicy=rng.random() < 0.6, max_depth=3, all_min_max=rng.random() < 0.5)
              for i in range(ndev)]
